@@ -1,12 +1,14 @@
 """C10 — queries never change the configuration."""
-import gens
+import gens, grammar, gramlib
 from checklib import Scenario
 
-RULE = ("objects built by random setter histories or parsed from files with mixed-case / non-boolean / absent values; "
+RULE = ("objects built by random setter histories or parsed from files with mixed-case / non-boolean / absent values, multi-line comments before keys and after values, or random conventional files; "
         "dump and written bytes before and after a random sequence of read-only calls (every typed, defaulted and "
         "extended getter incl. failing ones, listings, path, tags, write, use as merge input); distinct by model output")
 
-FILES = [b"k1=Yes Please\nk2=TRUE\n[A]\nk3\nk4=\n[B]\nk1 = \"Mixed Case\" # c\n", b"a=No\nb=YeS\nc=_None_\n", b"[X]\nv=1\n cont\n"]
+FILES = [b"k1=Yes Please\nk2=TRUE\n[A]\nk3\nk4=\n[B]\nk1 = \"Mixed Case\" # c\n", b"a=No\nb=YeS\nc=_None_\n", b"[X]\nv=1\n cont\n",
+         b"# one\n# two\nk1=v # t1\n# t2\n# t3\n\n[A]\n# h1\n# h2\n# h3\nk2=true\nk3=\"q\n r\" # c1\n# c2\n",
+         b"; a\n;\n; c\nk1 = 1 ; x\n; y\n[B]\n; only\nk4 = No\n"]
 
 def oracle(s, ilines):
     # the observation itself: every dump / write of an object is identical before and after
@@ -24,8 +26,13 @@ def gen(rng, tier):
     n = 300 if tier == "quick" else 20000
     out = []
     for _ in range(n):
-        if rng.random() < 0.5:
-            cmds = [gens.parse_cmd(0, b"/d/q.conf", rng.choice(FILES), b"=", b"#")]
+        r0 = rng.random()
+        if r0 < 0.35:
+            cmds = [gens.parse_cmd(0, b"/d/q.conf", rng.choice(FILES), b"=", rng.choice([b"#", b"#;"]))]
+        elif r0 < 0.5:
+            dl, cm = rng.choice([b"=", b" ", b":="]), rng.choice([b"#", b";"])
+            data = gramlib.expected_of([(dl, cm, grammar.gen_file(rng, dl, cm, maxlines=12))])[0]["bytes"]
+            cmds = [gens.parse_cmd(0, b"/d/q.conf", data, dl, cm)]
         else:
             cmds = [gens.start_cmd(rng, 0)] + [gens.set_cmd(rng, 0) for _ in range(rng.randrange(1, 14))]
         cmds += ["newini 1", gens.set_cmd(rng, 1), "dump 0", "write 0", "dump 1"]
